@@ -400,7 +400,12 @@ class StateMachine(object):  # pylint: disable=too-many-public-methods
                 self.accepted_contexts, self.store_in_file,
                 self.get_file_cb
             )
-        self.dimse_decoder.process(self.primitive)
+        try:
+            self.dimse_decoder.process(self.primitive)
+        except Exception:  # pylint: disable=broad-except
+            # P-DATA-TF that does not carry a decodable DIMSE message is an invalid PDU
+            self.dimse_decoder = None
+            return self.aa_8()
         if not self.dimse_decoder.receiving:
             msg, pc_id = self.dimse_decoder.msg, self.dimse_decoder.pc_id
             self.to_service_user.put((msg, pc_id))
@@ -444,7 +449,12 @@ class StateMachine(object):  # pylint: disable=too-many-public-methods
                 self.accepted_contexts, self.store_in_file,
                 self.get_file_cb
             )
-        self.dimse_decoder.process(self.primitive)
+        try:
+            self.dimse_decoder.process(self.primitive)
+        except Exception:  # pylint: disable=broad-except
+            # P-DATA-TF that does not carry a decodable DIMSE message is an invalid PDU
+            self.dimse_decoder = None
+            return self.aa_8()
         if not self.dimse_decoder.receiving:
             msg, pc_id = self.dimse_decoder.msg, self.dimse_decoder.pc_id
             self.to_service_user.put((msg, pc_id))
